@@ -244,6 +244,19 @@ func (ans *answer) Return(e error) {
 	ans.c.tasks.Done() // added by handleCall
 }
 
+// freeID removes ans from the answer table if it is still there.  The
+// remote vat may reuse the ID as soon as it has both sent the Finish and
+// received the Return, so the slot has to be given up no later than the
+// moment the second of the two is handled here: in handleFinish while the
+// Return is being written, or right before the Return is written if the
+// Finish came first.  By the time destroy runs the ID may belong to a
+// new answer.  The caller must be holding onto ans.c.mu.
+func (ans *answer) freeID() {
+	if ans.c.answers[ans.id] == ans {
+		delete(ans.c.answers, ans.id)
+	}
+}
+
 // pipelineCallDelivered records that a call handed to ans.pcall has been
 // delivered.  The caller must be holding onto ans.c.mu.
 func (ans *answer) pipelineCallDelivered() {
@@ -277,6 +290,9 @@ func (ans *answer) sendReturn(cstates []capnp.ClientState) (releaseList, error) 
 	case <-ans.c.bgctx.Done():
 	default:
 		fin := ans.flags&finishReceived != 0
+		if fin {
+			ans.freeID()
+		}
 		ans.c.mu.Unlock()
 		if err := ans.sendMsg(); err != nil {
 			ans.c.reportf("send return: %v", err)
@@ -315,6 +331,9 @@ func (ans *answer) sendException(e error) releaseList {
 	default:
 		// Send exception.
 		fin := ans.flags&finishReceived != 0
+		if fin {
+			ans.freeID()
+		}
 		ans.c.mu.Unlock()
 		if exc, err := ans.ret.NewException(); err != nil {
 			ans.c.reportf("send exception: %v", err)
@@ -353,9 +372,7 @@ func (ans *answer) sendException(e error) releaseList {
 //
 // shutdown has its own strategy for cleaning up an answer.
 func (ans *answer) destroy() (releaseList, error) {
-	if ans.c.answers[ans.id] == ans { // (the ID may have been reused already, see handleFinish)
-		delete(ans.c.answers, ans.id)
-	}
+	ans.freeID()
 	rl := releaseList(ans.resultCapTable)
 	if ans.flags&releaseResultCapsFlag == 0 || len(ans.exportRefs) == 0 {
 		return rl, nil
